@@ -394,8 +394,22 @@ Section Walk.
   Variable F : fops.
   Variable ops : path_ops S T C.
 
-  Definition key_of (rec : bool -> shape -> T -> S -> outcome (dval * S)) (root : bool) (ks : kseed) (st : S)
-    : outcome (option kres * S) :=
+  Notation recT := (bool -> shape -> T -> S -> outcome (dval * S)).
+
+  (* SeqAccess::next_element_seed(Seed s) *)
+  Definition elem_of (rec : recT) (s : shape) (a : S) : outcome (option dval * S) :=
+    do (ot, a1) <- p_next_elem ops a;
+    match ot with
+    | None => Ok (None, a1)
+    | Some t => do (v, a2) <- rec false s t a1; Ok (Some v, a2)
+    end.
+
+  (* MapAccess::next_value_seed(Seed s) *)
+  Definition value_of (rec : recT) (s : shape) (a : S) : outcome (dval * S) :=
+    do (t, a1) <- p_next_value ops a; rec false s t a1.
+
+  (* MapAccess::next_key_seed: String::deserialize / FieldSeed / AnyV / IgnoredAny on the key token *)
+  Definition key_of (rec : recT) (root : bool) (ks : kseed) (st : S) : outcome (option kres * S) :=
     do (ot, st1) <- p_next_key ops root st;
     match ot with
     | None => Ok (None, st1)
@@ -414,39 +428,40 @@ Section Walk.
       end
     end.
 
+  (* Seed(sh).deserialize(d) for a shape with its own visitor: one Deserializer call, then the visitor *)
+  Definition walk_plain (rec : recT) (f : nat) (iskey : bool) (sh : shape) (tok : T) (st : S) : outcome (dval * S) :=
+    let h := hint_of sh in
+    do (a, st1) <- p_dispatch ops iskey h tok st;
+    match a with
+    | APrim p => do v <- visit_prim F sh p; Ok (v, st1)
+    | AColor c => do v <- p_color ops f sh c; Ok (v, st1)
+    | ASeq sub =>
+      do (r, drained) <- visit_seq (elem_of rec) f sh sub;
+      do st2 <- p_seq_exit ops h st1 (snd r) drained;
+      Ok (fst r, st2)
+    | AMap sub =>
+      do (v, sub') <- visit_map (key_of rec false) (value_of rec) f sh sub;
+      do st2 <- p_map_exit ops st1 sub';
+      Ok (v, st2)
+    end.
+
+  (* EnumV: visit_enum -> variant_seed -> deserialize_identifier(VariantSeed) on the same token; unit_variant *)
+  Definition walk_enum (vs : list bytes) (iskey : bool) (tok : T) (st : S) : outcome (dval * S) :=
+    do (a, st') <- p_dispatch ops iskey HIdent tok st;
+    match a with
+    | APrim p => do v <- visit_variant vs p; Ok (v, st')
+    | _ => Err EC_DE
+    end.
+
   Fixpoint walk (fuel : nat) (iskey : bool) (sh : shape) (tok : T) (st : S) {struct fuel} : outcome (dval * S) :=
     match fuel with
     | O => OutOfFuel
     | Datatypes.S f =>
       match sh with
       | ShOpt s => do (v, st') <- walk f iskey s tok st; Ok (DSome v, st')        (* visit_some(self) *)
-      | ShEnum vs =>
-        do (a, st') <- p_dispatch ops iskey HIdent tok st;
-        match a with
-        | APrim p => do v <- visit_variant vs p; Ok (v, st')
-        | _ => Err EC_DE
-        end
+      | ShEnum vs => walk_enum vs iskey tok st
       | ShProp _ => Panic 9001       (* jomini::text::Property: text only, not modelled on this side *)
-      | _ =>
-        let h := hint_of sh in
-        do (a, st1) <- p_dispatch ops iskey h tok st;
-        match a with
-        | APrim p => do v <- visit_prim F sh p; Ok (v, st1)
-        | AColor c => do v <- p_color ops f sh c; Ok (v, st1)
-        | ASeq sub =>
-          do (r, drained) <-
-             visit_seq (fun s a => do (ot, a1) <- p_next_elem ops a;
-                                   match ot with
-                                   | None => Ok (None, a1)
-                                   | Some t => do (v, a2) <- walk f false s t a1; Ok (Some v, a2)
-                                   end) f sh sub;
-          do st2 <- p_seq_exit ops h st1 (snd r) drained;
-          Ok (fst r, st2)
-        | AMap sub =>
-          do (v, sub') <- visit_map (key_of (walk f) false) (fun s a => do (t, a1) <- p_next_value ops a; walk f false s t a1) f sh sub;
-          do st2 <- p_map_exit ops st1 sub';
-          Ok (v, st2)
-        end
+      | _ => walk_plain (walk f) f iskey sh tok st
       end
     end.
 
@@ -454,7 +469,7 @@ Section Walk.
   Definition walk_root (fuel : nat) (sh : shape) (st : S) : outcome dval :=
     match sh with
     | ShMap _ | ShStruct _ _ =>
-      do (v, _) <- visit_map (key_of (walk fuel) true) (fun s a => do (t, a1) <- p_next_value ops a; walk fuel false s t a1) fuel sh st;
+      do (v, _) <- visit_map (key_of (walk fuel) true) (value_of (walk fuel)) fuel sh st;
       Ok v
     | ShProp _ => Panic 9001
     | _ => Err EC_DE
